@@ -524,6 +524,26 @@ func (tt *Terms) BVCmp(op string, a, b *Term) *Term {
 	if a == b {
 		return tt.Bool(op == "bvule" || op == "bvsle")
 	}
+	// bytes of strings: unsigned comparison of str.to_code values stays in Int
+	if w == 8 && (op == "bvult" || op == "bvule") {
+		code := func(t *Term) (*Term, bool) {
+			if t.Op == "(_ int2bv 8)" && t.Args[0].Op == "str.to_code" {
+				return t.Args[0], true
+			}
+			if t.IsConst() {
+				return tt.Int(int64(t.U)), true
+			}
+			return nil, false
+		}
+		x, ok1 := code(a)
+		y, ok2 := code(b)
+		if ok1 && ok2 && !(a.IsConst() && b.IsConst()) {
+			if op == "bvult" {
+				return tt.ILt(x, y)
+			}
+			return tt.ILe(x, y)
+		}
+	}
 	if w == 64 && (tt.isI2BV(a) || tt.isI2BV(b)) {
 		x, ok1 := tt.asLen(a)
 		y, ok2 := tt.asLen(b)
